@@ -240,6 +240,10 @@ def gen_twins(families=None):
 
 
 # ---------------------------------------------------------------------------
+PROPS = None
+VERBOSE = False
+
+
 def run_one(job):
     tid, fn, new = job
     from .__main__ import run_property
@@ -250,10 +254,10 @@ def run_one(job):
     except Exception as e:  # noqa: BLE001
         return tid, {"engine": (2, [f"front end: {type(e).__name__}: {e}"])}, time.time() - t0
     res = {}
-    for pid in ALL:
+    for pid in (PROPS or ALL):
         rc, rep = run_property(pid, "quick", 0, repo=repo, write_evidence=False, quiet=True)
         if rc != 0:
-            msgs = [f"{o.state} {o.rule} {o.construct}: {(o.why or '')[:160]}" for o in rep.obligations if o.state != "DISCHARGED"]
+            msgs = [f"{o.state} {o.rule} {o.construct}: {(o.why or '')[:160]}" + (f" facts={str(o.facts)[:600]}" if VERBOSE else "") for o in rep.obligations if o.state != "DISCHARGED"]
             from .core import load_known_findings, _matches
 
             kf = load_known_findings()["known"]
@@ -274,8 +278,15 @@ def main(argv=None):
         limit = int(argv[argv.index("--limit") + 1])
     if "-j" in argv:
         jobs = int(argv[argv.index("-j") + 1])
+    global PROPS, VERBOSE
+    if "--props" in argv:
+        PROPS = argv[argv.index("--props") + 1].split(",")
+    VERBOSE = "-v" in argv
     if mode == "twins":
         work = list(gen_twins(fams))
+        if "--only" in argv:
+            pats = argv[argv.index("--only") + 1].split(",")
+            work = [w for w in work if any(p_ in w[0] for p_ in pats)]
         if limit:
             import random
 
